@@ -336,4 +336,50 @@ theorem eol_head (cmt : List UInt8) (hc : commentOK cmt) (crlf : Bool) (r : List
     · exact ⟨13, 10 :: r, rfl, by decide, by decide⟩
   · exact ⟨59, _, rfl, by decide, by decide⟩
 
+/-! ### blanks at the start of a gap (`skip_whitespace` at the start of a line) -/
+
+def dropBlanks : PGap → PGap
+  | .blank _ :: g => dropBlanks g
+  | g => g
+
+theorem dropBlanks_facts (g : PGap) (p : Bool) :
+    gapRun p (dropBlanks g) = gapRun p g ∧ gapLines (dropBlanks g) = gapLines g ∧ (GapWF g → GapWF (dropBlanks g)) := by
+  induction g with
+  | nil => exact ⟨rfl, rfl, id⟩
+  | cons x g ih =>
+    cases x with
+    | blank t =>
+      obtain ⟨i1, i2, i3⟩ := ih
+      exact ⟨by simpa [dropBlanks, gapRun] using i1, by simpa [dropBlanks, gapLines] using i2,
+        fun h => by simpa [dropBlanks] using i3 h.tail⟩
+    | openParen => exact ⟨rfl, rfl, id⟩
+    | closeParen => exact ⟨rfl, rfl, id⟩
+    | newline c crlf => exact ⟨rfl, rfl, id⟩
+
+theorem dropWhile_gap (g : PGap) (hwf : GapWF g) (X : List UInt8) (hX : Starts X) :
+    (gapText g ++ X).dropWhile isWs = gapText (dropBlanks g) ++ X := by
+  have hXws : X.dropWhile isWs = X := by
+    obtain ⟨c, t, rfl, hc⟩ := hX
+    simp [List.dropWhile, fieldStart_not_ws hc]
+  induction g with
+  | nil => simpa [gapText, dropBlanks] using hXws
+  | cons x g ih =>
+    have e : gapText (x :: g) ++ X = gapItemText x ++ (gapText g ++ X) := by simp [gapText]
+    rw [e]
+    cases x with
+    | blank t =>
+      have : isWs (if t then 9 else 32) = true := by cases t <;> decide
+      simp only [gapItemText, List.singleton_append, List.dropWhile_cons, this, ↓reduceIte, dropBlanks]
+      exact ih hwf.tail
+    | openParen => simp [gapItemText, dropBlanks, gapText, List.dropWhile, isWs]
+    | closeParen => simp [gapItemText, dropBlanks, gapText, List.dropWhile, isWs]
+    | newline c crlf =>
+      obtain ⟨c0, t0, h0, hws0, _⟩ := eol_head c (hwf c crlf (by simp)) crlf (gapText g ++ X)
+      have e2 : gapItemText (.newline c crlf) ++ (gapText g ++ X) = c0 :: t0 := by
+        rw [← h0]; simp [gapItemText]
+      rw [e2]
+      simp only [List.dropWhile_cons, hws0, Bool.false_eq_true, ↓reduceIte, dropBlanks]
+      rw [← e2]
+      simp [gapText]
+
 end QV.ZF
